@@ -81,3 +81,158 @@ Example C04_ex :
   wf_queue PFifo es = true /\ wf_hist all_rep (qinit PFifo es [] []) ops = true /\
   conservation_test PFifo es [] [] ops = true.
 Proof. vm_compute. repeat split; reflexivity. Qed.
+
+From PV Require Import Queue.SpecX Queue.ProofsXC04 Queue.ProofsXClosest.
+
+(* ======================================================================================
+   The ADDITIONS of the coverage audit (Queue/Model.v: xop, pop_buffer(n, decrement=False), rejected pauses
+   that do NOT end the history, mk_entry_dur, closest_key).  Vocabulary: Queue/SpecX.v.
+   all_rep includes the repair r_pause_atomic: pause(t) checks t against the clock before it cancels anything.
+   wf_queue_x only asks 1 <= trials = requested of every stimulus: waveform length, DECLARED duration
+   (any value, also different from the length), kind and delays (scalar or finite list) are arbitrary.
+   A tagged event is (notification, 'decrement' field of its info dict).
+   ====================================================================================== *)
+
+(* Over EVERY finite xop history - requests with or without decrement, pauses at ANY time (a pause after the
+   clock is rejected with ValueError but the history goes on), resumes,
+   closest-key queries: per (stimulus, start) the live log entries are #added - #removed; for every stimulus
+   remaining trials + net presentations of the DECREMENTING trials = requested; the non-decrementing
+   presentations neither take nor give back a trial: their net notifications are exactly the non-decrementing
+   entries still in the log (never negative), and they do not enter the balance of the trial counter. *)
+Theorem C04_conservation_x : forall p es ch pm ops q tev,
+  wf_queue_x es = true ->
+  run_hist_x all_rep (qinit p es ch pm) ops = Some (q, tev) ->
+  (forall k t0, zlen (filter (eqb_pairZ (k, t0)) (live_of q)) =
+                zlen (filter (eqb_pairZ (k, t0)) (added_of (all_events tev)))
+                - zlen (filter (eqb_pairZ (k, t0)) (removed_of (all_events tev)))) /\
+  (forall k e, znth es k = Some e ->
+               trials_of (q_data q) k + net_presented k (dec_events tev) = e_requested e) /\
+  (forall k, net_presented k (dec_events tev) = countZ k (live_dec q)) /\
+  (forall k, net_presented k (nd_events tev) = countZ k (live_nd q) /\ 0 <= net_presented k (nd_events tev)).
+Proof. exact conservation_x. Qed.
+Print Assumptions C04_conservation_x.
+
+(* ... and when such a history ends with the queue reporting empty: exactly the requested number of
+   non-cancelled DECREMENTING presentations (at least that many for the keep-completed policies). No side
+   condition on the decrement=False requests is needed. *)
+Theorem C04_at_empty_x : forall p es ch pm ops q tev,
+  wf_queue_x es = true ->
+  run_hist_x all_rep (qinit p es ch pm) ops = Some (q, tev) -> q_empty q = true ->
+  forall k e, znth es k = Some e ->
+    if exact_policy p then net_presented k (dec_events tev) = e_requested e
+    else e_requested e <= net_presented k (dec_events tev).
+Proof. exact at_empty_x. Qed.
+Print Assumptions C04_at_empty_x.
+
+(* A REJECTED pause (t after the clock) in ANY state: ValueError, no notification, the queue exactly as it was
+   (not paused, source and pending delay kept, nothing cancelled, log and counters untouched). *)
+Theorem C04_rejected_pause_atomic : forall q t q' ev err,
+  q_samples q < t -> pause all_rep q (Some t) = (q', ev, err) -> q' = q /\ ev = [] /\ err = true.
+Proof. exact rejected_pause_atomic. Qed.
+Print Assumptions C04_rejected_pause_atomic.
+
+(* ... so a history continues as if the rejected call had not been made: removing every rejected pause of an
+   xop history (drop_rejected judges each pause against the running state) changes neither the final state
+   nor the event stream, and what is left contains no rejected pause. *)
+Theorem C04_rejected_pause_is_skip : forall ops q,
+  run_hist_x all_rep q (drop_rejected all_rep q ops) = run_hist_x all_rep q ops /\
+  rejected_pauses all_rep q (drop_rejected all_rep q ops) = 0.
+Proof. exact drop_rejected_same. Qed.
+Print Assumptions C04_rejected_pause_is_skip.
+
+(* C04_pause_exact carried over to the xop-reachable states: log entries with decrement=False are announced
+   but give nothing back, and `ends_after` is judged on the DECLARED duration. *)
+Theorem C04_pause_exact_x : forall p es ch pm ops q tev0 t q' ev err,
+  wf_queue_x es = true ->
+  run_hist_x all_rep (qinit p es ch pm) ops = Some (q, tev0) ->
+  t <= q_samples q -> pause all_rep q (Some t) = (q', ev, err) ->
+  err = false /\
+  ev = map (fun i => ERemoved (i_key i) (i_t0 i)) (filter (fun i => ends_after i t) (rev (q_generated q))) /\
+  q_generated q' = filter (fun i => negb (ends_after i t)) (q_generated q) /\
+  q_samples q' = t /\ q_paused q' = true /\ q_source q' = None /\ q_delay q' = 0 /\
+  (forall k, trials_of (q_data q') k =
+             trials_of (q_data q) k +
+             countZ k (map i_key (filter i_dec (filter (fun i => ends_after i t) (q_generated q))))).
+Proof. exact pause_exact_x. Qed.
+Print Assumptions C04_pause_exact_x.
+
+(* Before the repair r_pause_atomic (rep_nonatomic = every other repair in force) a rejected pause did NOT
+   leave the queue as it was, nor did it cleanly cancel the trial in progress: with the clock at 2 inside a
+   trial ending at 5, pause(7) raised, announced nothing and restored nothing, yet dropped the rest of the
+   waveform and left the queue paused.  (Its exact effect then: rejected_pause_effect_unrepaired in
+   Queue/ProofsXC04.v.) *)
+Theorem C04_rejected_pause_unrepaired_refuted : exists p es ops q tev t q' ev err k pos len,
+  wf_queue p es = true /\ wf_queue_x es = true /\
+  run_hist_x rep_nonatomic (qinit p es [] []) ops = Some (q, tev) /\
+  q_samples q < t /\ pause rep_nonatomic q (Some t) = (q', ev, err) /\ err = true /\
+  q_source q = Some (k, pos, len) /\ pos < len /\
+  ev = [] /\ q_generated q' = q_generated q /\ q_data q' = q_data q /\
+  q_source q' = None /\ q_paused q' = true /\ q' <> q.
+Proof. exact rejected_pause_unrepaired_refuted. Qed.
+Print Assumptions C04_rejected_pause_unrepaired_refuted.
+
+(* C04_resume_start for requests with or without decrement: after an accepted pause(t) and resume(t2) the
+   first new trial starts exactly at t2.  (After a REJECTED pause this is no longer claimed: the queue is
+   untouched, so a trial or delay in progress simply continues after the resume.) *)
+Theorem C04_resume_start_x : forall q t t2 q1 ev1 err n dec q3 out ev,
+  t <= q_samples q ->
+  pause all_rep q (Some t) = (q1, ev1, err) ->
+  pop_x all_rep (resume q1 (Some t2)) n dec = Some (q3, out, ev) ->
+  match added_of ev with (_, t0) :: _ => t0 = t2 | [] => True end.
+Proof. exact resume_start_x. Qed.
+Print Assumptions C04_resume_start_x.
+
+(* get_closest_key(t) in ANY state: None (-1) iff no logged trial has t0 <= t, otherwise the key of the LAST
+   log entry with t0 <= t *)
+Theorem C04_closest_key_spec : forall q t,
+  (closest_key q t = -1 /\ forall i, In i (q_generated q) -> t < i_t0 i) \/
+  (exists l1 i l2, q_generated q = l1 ++ i :: l2 /\ i_t0 i <= t /\ (forall j, In j l2 -> t < i_t0 j) /\
+                   closest_key q t = i_key i).
+Proof. exact closest_key_spec. Qed.
+Print Assumptions C04_closest_key_spec.
+
+(* Along every xop history in which time only moves forward (each resume(t2) has t2 not before the clock;
+   pauses - accepted or rejected - anywhere) and declared durations are not negative, the log is sorted by
+   start time and nothing in it starts after the clock ... *)
+Theorem C04_log_sorted : forall p es ch pm ops q tev,
+  dur_nonneg es = true ->
+  fwd_hist_x all_rep (qinit p es ch pm) ops = true ->
+  run_hist_x all_rep (qinit p es ch pm) ops = Some (q, tev) ->
+  sorted_t0 (q_generated q) = true /\ (forall i, In i (q_generated q) -> i_t0 i <= q_samples q).
+Proof. exact log_sorted. Qed.
+Print Assumptions C04_log_sorted.
+
+(* ... so there get_closest_key(t) is the key (a valid stimulus index) of the non-cancelled trial with the
+   LATEST start <= t. *)
+Theorem C04_closest_key_latest : forall p es ch pm ops q tev t,
+  wf_queue_x es = true -> dur_nonneg es = true ->
+  fwd_hist_x all_rep (qinit p es ch pm) ops = true ->
+  run_hist_x all_rep (qinit p es ch pm) ops = Some (q, tev) ->
+  (closest_key q t = -1 /\ forall i, In i (q_generated q) -> t < i_t0 i) \/
+  (exists i, In i (q_generated q) /\ closest_key q t = i_key i /\ 0 <= i_key i < zlen es /\ i_t0 i <= t /\
+             forall j, In j (q_generated q) -> i_t0 j <= t -> i_t0 j <= i_t0 i).
+Proof. exact closest_key_latest. Qed.
+Print Assumptions C04_closest_key_latest.
+
+(* without the forward condition it fails: after resume(t2) with t2 before the clock the log is out of order
+   and the newest entry with t0 <= t is not the latest start *)
+Theorem C04_log_sorted_backward_resume_refuted : exists p es ops q tev t i j,
+  wf_queue p es = true /\ wf_hist_x ops = true /\
+  run_hist_x all_rep (qinit p es [] []) ops = Some (q, tev) /\
+  fwd_hist_x all_rep (qinit p es [] []) ops = false /\
+  sorted_t0 (q_generated q) = false /\
+  In i (q_generated q) /\ In j (q_generated q) /\ closest_key q t = i_key i /\
+  i_t0 j <= t /\ i_t0 i < i_t0 j /\ i_key i <> i_key j.
+Proof. exact log_sorted_backward_resume_refuted. Qed.
+Print Assumptions C04_log_sorted_backward_resume_refuted.
+
+Example C04_x_ex :
+  let es := [mk_entry_dur 2 3 KArray [2] true 5; mk_entry_dur 2 4 KGen [1; 0; 3; 1] false 1] in
+  let ops := [XPop 4 false; XPause (Some 20); XResume None; XPop 5 true; XClosest 3; XPause (Some 30);
+              XPause (Some 2); XResume (Some 9); XPop 40 true; XPop 40 true] in
+  let q0 := qinit PFifo es [] [] in
+  wf_queue_x es = true /\ wf_queue PFifo es = false /\ dur_nonneg es = true /\ wf_hist_x ops = true /\
+  fwd_hist_x all_rep q0 ops = true /\ rejected_pauses all_rep q0 ops = 2 /\
+  conservation_x_test PFifo es [] [] ops = true /\
+  match run_hist_x all_rep q0 ops with Some (q, tev) => q_empty q && negb (zlen (nd_events tev) =? 0) | None => false end = true.
+Proof. vm_compute. repeat split; reflexivity. Qed.
